@@ -502,6 +502,9 @@ theorem apply_chain {s s' : St} {o : Op} (h : ChainAll s) (e : apply s o = .ok s
   | transferOwner sg ra' no =>
     obtain ⟨r, hg, _, _, _, rfl⟩ := transferOwner_ok e
     exact RaAll.setRa h ((h.get hg).of_states rfl)
+  | setSeqParams au sp =>
+    obtain ⟨_, hnp, _, rfl⟩ := setSeqParams_ok e
+    exact h.ras_eq rfl
   | begin_ dt => simp only [apply] at e; injection e with e; subst e; exact beginBlock_chain h
   | end_ f => simp only [apply] at e; injection e with e; subst e; exact endBlock_chain h
 
